@@ -80,6 +80,7 @@ static void record(const std::string &key, Verdict v, const std::string &detail,
     else if (v == HUNG) violation(key, std::string(what) + ": " + detail);
 }
 
+static Cfg big_cfg(int content) { Cfg c; c.n = 3; c.N = 2048; c.k = 1; c.l = 1; c.Bgbit = 8; c.t = 2; c.basebit = 1; c.content = content; c.seed = 13; c.keysets = false; c.la_min = 0.1; c.la_max = 0.3; c.ta_min = 7.18e-9; c.ta_max = 0.012467; return c; }
 static Cfg small_cfg(bool keysets, int content) { Cfg c; c.n = keysets ? 2 : 3; c.N = keysets ? 1024 : 2; c.k = 1; c.l = 1; c.Bgbit = 8; c.t = 2; c.basebit = 1; c.content = content; c.seed = 11; c.keysets = keysets; c.la_min = 0.1; c.la_max = 0.3; c.ta_min = 7.18e-9; c.ta_max = 0.012467; return c; }
 
 int main(int argc, char **argv) {
@@ -89,10 +90,14 @@ int main(int argc, char **argv) {
     if (g_inproc) { struct sigaction sa; memset(&sa, 0, sizeof sa); sa.sa_sigaction = on_segv; sa.sa_flags = SA_SIGINFO | SA_NODEFER; sigaction(SIGSEGV, &sa, nullptr); sigaction(SIGBUS, &sa, nullptr); }
     bool noks = opt("keysets", "1") == "0";   // sanitizer passes of the quick tier skip the two N=1024 key sets (fork cost under ASan)
     World wsmall(small_cfg(false, 1)), wsmall2(small_cfg(false, 2)), wks(small_cfg(!noks, 1)), wks2(small_cfg(!noks, 2));
+    World wbig(big_cfg(1)), wbig2(big_cfg(2));   // ring dimension 2048: every coefficient array is larger than 4096 bytes (bulk-read paths)
     std::string part = opt("part", "all");
+    for (int pass = 0; pass < 2; pass++)
     for (int t = 0; t < nt; t++) for (int file = 0; file < 2; file++) {
+        bool big = pass == 1; if (big && (T[t].needs_keysets || T[t].text_only || (strcmp(T[t].name, "TLweSample") && strcmp(T[t].name, "TLweKey") && strcmp(T[t].name, "TGswSample") && strcmp(T[t].name, "TGswKey") && strcmp(T[t].name, "LweBootstrappingKey")))) continue;
         if (noks && T[t].needs_keysets) continue;
-        World &w = T[t].needs_keysets ? wks : wsmall; World &w2 = T[t].needs_keysets ? wks2 : wsmall2;
+        World &w = big ? wbig : T[t].needs_keysets ? wks : wsmall; World &w2 = big ? wbig2 : T[t].needs_keysets ? wks2 : wsmall2;
+        std::string tname = std::string(T[t].name) + (big ? "@N=2048" : "");
         Out o(file); T[t].exp(w, o); std::string bytes = o.bytes(); Out o2(file); T[t].exp(w2, o2); std::string bytes2 = o2.bytes();
         size_t L = bytes.size();
         // structure: title-line bytes and tag bytes
@@ -106,17 +111,17 @@ int main(int argc, char **argv) {
         // ---- (1) crash points: proper prefixes
         if (part == "all" || part == "prefix") {
             std::vector<size_t> cuts;
-            if (L <= 65536) for (size_t p = 0; p < L; p++) cuts.push_back(p);
-            else { std::set<size_t> c; for (size_t b : boundary) for (long d = -32; d <= 32; d++) { long q = (long)b + d; if (q >= 0 && q < (long)L) c.insert((size_t)q); } for (size_t p = 0; p < L; p += 509) c.insert(p); for (size_t p = L > 64 ? L - 64 : 0; p < L; p++) c.insert(p); cuts.assign(c.begin(), c.end()); S().exhaustive = S().exhaustive; info(fmt("prefix_subset/%s", T[t].name), fmt("%zu of %zu offsets (within 32 bytes of every section/tag boundary + stride 509 + last 64)", cuts.size(), L)); }
+            if (L <= 65536 && !big) for (size_t p = 0; p < L; p++) cuts.push_back(p);
+            else { std::set<size_t> c; for (size_t b : boundary) for (long d = -32; d <= 32; d++) { long q = (long)b + d; if (q >= 0 && q < (long)L) c.insert((size_t)q); } for (size_t p = 0; p < L; p += 509) c.insert(p); for (size_t p = L > 64 ? L - 64 : 0; p < L; p++) c.insert(p); cuts.assign(c.begin(), c.end()); S().exhaustive = S().exhaustive; info(fmt("prefix_subset/%s", tname.c_str()), fmt("%zu of %zu offsets (within 32 bytes of every section/tag boundary + stride 509 + last 64)", cuts.size(), L)); }
             for (size_t p : cuts) {
-                std::string key = fmt("prefix/%s/%s/len=%zu", T[t].name, file ? "FILE" : "stream", p);
+                std::string key = fmt("prefix/%s/%s/len=%zu", tname.c_str(), file ? "FILE" : "stream", p);
                 if (!take(key)) continue; if (deadline()) break; current(key);
                 std::string detail; Verdict v = try_import(w, T[t], file, bytes.substr(0, p), detail);
                 record(key, v, detail, "truncated export"); eval(1); nontrivial(1);
             }
         }
         // ---- (2) corruptions of title lines and type tags
-        if (part == "all" || part == "corrupt") {
+        if (!big && (part == "all" || part == "corrupt")) {
             std::vector<size_t> pos(title.begin(), title.end()); pos.insert(pos.end(), tag.begin(), tag.end());
             for (size_t p : pos) for (int r = 0; r < 5; r++) {
                 unsigned char b = (unsigned char)bytes[p], nb = r == 0 ? 0x00 : r == 1 ? 0xFF : r == 2 ? b + 1 : r == 3 ? b - 1 : '\n';
@@ -128,7 +133,7 @@ int main(int argc, char **argv) {
             }
         }
         // ---- (3) substitutions: this export fed to every other importer
-        if (part == "all" || part == "subst") for (int u = 0; u < nt; u++) { if (u == t || (noks && T[u].needs_keysets)) continue;
+        if (!big && (part == "all" || part == "subst")) for (int u = 0; u < nt; u++) { if (u == t || (noks && T[u].needs_keysets)) continue;
             std::string key = fmt("subst/%s-into-%s/%s", T[t].name, T[u].name, file ? "FILE" : "stream");
             if (!take(key)) continue; if (deadline()) break; current(key);
             World &wu = (T[u].needs_keysets || T[t].needs_keysets) ? wks : wsmall;   // the importer's own parameter objects
